@@ -38,6 +38,9 @@ const DTS: &[DtSpec] = &[
     (Some((2024, 2, 29)), Some((23, 59, 59, 123_456_789)), Some(Some(-90))),
     (None, Some((0, 0, 0, 1)), None),
     (Some((1979, 5, 27)), Some((0, 32, 0, 120_000_000)), Some(Some(330))),
+    // a numeric offset of zero is not `Z`; the extreme offsets
+    (Some((1987, 7, 5)), Some((17, 45, 56, 0)), Some(Some(0))),
+    (Some((1987, 7, 5)), Some((17, 45, 56, 0)), Some(Some(-1439))),
 ];
 
 fn g_str(r: &mut StdRng) -> String {
